@@ -1039,8 +1039,18 @@ vbi_convert_page(vbi_decoder *vbi, cache_page *vtp,
 
 		for (i = 1; i <= 25; i++)
 			if (vtp->lop_packets & (1 << i))
-				if (!parse_pop(&page, vtp->data.unknown.raw[i], i))
+				if (!parse_pop(&page, vtp->data.unknown.raw[i], i)) {
+					/* A packet with an uncorrectable first
+					   byte is dropped, as it is when the
+					   page function is known on reception.
+					   It must not cost the whole page. */
+					if (vbi_unham8 (vtp->data.unknown.raw[i][0]) < 0) {
+						page.lop_packets &= ~(1 << i);
+						continue;
+					}
+
 					return FALSE;
+				}
 
 		if (vtp->x26_designations) {
 			memcpy (&page.data.pop.triplet[23 * 13],
